@@ -45,6 +45,28 @@ def run_one(m):
     finally:
         shutil.rmtree(tmp, ignore_errors=True)
 
+def run_benign(job):
+    """A behaviour-preserving refactoring (sub-agent written patch): the check must stay silent."""
+    path, prop = job
+    tmp = tempfile.mkdtemp(prefix="vselftest.")
+    m = {"id": "benign:" + os.path.basename(path)[:-5], "prop": prop, "expect": ""}
+    try:
+        dst = os.path.join(tmp, "repo")
+        shutil.copytree(REPO, dst, ignore=shutil.ignore_patterns(".git"))
+        r = subprocess.run(["patch", "-s", "-p1", "--fuzz=3", "-i", path], cwd=dst, capture_output=True, text=True)
+        if r.returncode != 0:
+            return (m, "ok", "patch no longer applies to the current tree (skipped)")
+        r = subprocess.run([os.path.join(VERIF, "bin/verifcheck"), "-repo", dst, "-verif", VERIF, "-prop", prop,
+                            "-tier", "quick", "-evidence", os.path.join(tmp, "ev.json")], capture_output=True, text=True)
+        out = r.stdout + r.stderr
+        if r.returncode == 2:
+            return (m, "corpus-error", out[-500:])
+        if r.returncode == 0:
+            return (m, "ok", "silent as required")
+        return (m, "FALSE-ALARM", out[-800:])
+    finally:
+        shutil.rmtree(tmp, ignore_errors=True)
+
 def main():
     prop = sys.argv[1] if len(sys.argv) > 1 else "all"
     jobs = 6
@@ -66,9 +88,22 @@ def main():
             results.append({"id": m["id"], "expect": m.get("expect", ""), "status": status})
             if status != "ok":
                 bad += 1
-    print("selftest: %d mutants, %d problems" % (len(muts), bad))
+    import glob
+    benign = sorted(glob.glob(os.path.join(VERIF, "checker/selftest/benign/*.diff")))
+    if only is not None:
+        benign = [b for b in benign if os.path.basename(b)[:-5] == only.replace("benign:", "")]
+    nb = 0
+    if benign and (only is None or only.startswith("benign:")):
+        with cf.ThreadPoolExecutor(max_workers=jobs) as ex:
+            for m, status, detail in ex.map(run_benign, [(b, prop) for b in benign]):
+                nb += 1
+                results.append({"id": m["id"], "expect": "", "status": status})
+                if status != "ok":
+                    print("selftest %-28s %-4s %-12s %s" % (m["id"], prop, status, detail))
+                    bad += 1
+    print("selftest: %d mutants + %d behaviour-preserving refactorings, %d problems" % (len(muts), nb, bad))
     if jout:
-        json.dump({"mutants": len(muts), "problems": bad, "results": results}, open(jout, "w"))
+        json.dump({"mutants": len(muts), "benign_refactorings": nb, "problems": bad, "results": results}, open(jout, "w"))
     return 1 if bad else 0
 
 if __name__ == "__main__":
